@@ -32,8 +32,15 @@ impl Scheduler {
 
     /// Next connection which is ready to make progress
     pub fn poll(&mut self) -> Option<(ConnectionId, VecDeque<DataRequest>)> {
-        let id = self.readyqueue.pop_front()?;
-        let tracker = self.trackers.get_mut(id)?;
+        // Disconnected connections are left in the ready queue (see handle_disconnection).
+        // Skip them: returning None here means "nothing is ready" to the router, which then
+        // waits for the next event while connections behind the stale entry are ready
+        let (id, tracker) = loop {
+            let id = self.readyqueue.pop_front()?;
+            if self.trackers.contains(id) {
+                break (id, self.trackers.get_mut(id)?);
+            }
+        };
 
         // drain will clear all DataRequest but will keep the allocated memory of our VecDeque.
         let data_requests = tracker.data_requests.drain(..).collect();
